@@ -20,6 +20,14 @@ def run(tier, seed, replay=None):
         ck.mc(DIR, "CutTwin", "MC_cut.cfg")
         ck.mc(DIR, "CutTwin", "MC_cut2.cfg")
         ck.mc("Bnb", "Bnb", "MC_bnb1.cfg")           # the branch-and-bound skeleton (Cover invariant) shared with C04
+        # column generation as a transition system (any optimal dual vertex, any improving pattern): the bound OPTIMAL rests on
+        ck.mc(DIR, "ColGen", "MC_cg_7_SZ234_2.cfg")
+        ck.mc(DIR, "ColGen", "NC_colgen.cfg", expect_violation="BoundValid")
+        if tier == "thorough":
+            ck.mc(DIR, "ColGen", "MC_cg_9_SZ234_2.cfg", timeout=3000)
+            ck.mc(DIR, "ColGen", "MC_cg_6_SZ123_2.cfg", timeout=3000)
+            ck.mc(DIR, "ColGen", "MC_cg_7_SZ23_3.cfg", timeout=3000)
+            ck.mc(DIR, "ColGen", "MC_cg_10_SZ234_3.cfg", timeout=6000)
         n = 400 if tier == "quick" else 6000
         cases = [drv.gen_stock(rng) for _ in range(n)] + [drv.gen_custom(rng) for _ in range(n // 2)]
     res = run_tasks("cutstock", "run_cut", cases, timeout=30)
